@@ -7,7 +7,7 @@ from ..txn import write_sites
 
 META = {
     'title': 'Database content depends only on which lexicons are installed',
-    'technique': 'foreign-key graph closure of schema.sql; dominance of PRAGMA foreign_keys; who-may-write over all SQL call sites',
+    'technique': 'foreign-key graph closure of schema.sql; dominance of PRAGMA foreign_keys; who-may-write over all SQL call sites; effect summaries (name-free normal form of a function: locals inlined, positional loop variables, cells, comprehension = loop, helpers expanded) of remove(), _precheck and _add_lexical_resource (every write guarded by the skip map)',
     'explanation': (
         'History equivalence itself is not statically decidable; the check decides the mechanisms it rests on. '
         'R1: in the FK graph of the current schema every owned table is reachable from lexicons through ON DELETE '
